@@ -241,7 +241,7 @@ def stepG (keep : Bool) (s : Option Hist) (op : Op) : Option Hist × Res :=
     | none => (some h, .err "not_found")
     | some _ =>
       match h.lookup v with
-      | none => (some h, .err "not_found")
+      | none => (some h, .err "other")  -- read_manifest of a missing file: an IO error, not `NotFound`
       | some old => (some (h.push (restored keep h.latest old)), .ok)
 
 /-- the code as it is now -/
@@ -260,7 +260,7 @@ def stepStaleMarks (s : Option Hist) (op : Op) : Option Hist × Res :=
     | none => (some h, .err "not_found")
     | some hm =>
       match h.lookup v with
-      | none => (some h, .err "not_found")
+      | none => (some h, .err "other")
       | some old => (some (h.push { restored true hm old with version := h.latest.version + 1 }), .ok)
   | s, op => stepG true s op
 
